@@ -9,8 +9,17 @@ call spec:
   {'fn': 'private', 'name': '_from_phi_4D_direct' | ..., 'args': as for the private function}
   {'fn': 'bbconv', 'n', 'p', 'a', 'b'}        -> [BetaBinomConvolution(i, n, a, b, ploidy=p) for i in 0..n*p]
 result: {'data','mask','shape','pop_ids','extrap_x','warn'} | {'refused': 'ValueError: ...'} | {'error': 'UnboundLocalError: ...'}
+
+Array layouts (every call spec): 'phi_layout' in C (default) | F (Fortran order) | T (transposed view of the transposed copy) |
+  swap (first and last axis swapped in storage) | strided (every other element of a buffer twice as large along each axis) |
+  neg (storage reversed along every axis, negative strides);  'grid_layout' in C | strided | neg  (1-D views built the same way).
+
+Sessions: stdin {'sessions': [{'id': str, 'calls': [spec...]}...]} -> {'sessions': [{'id', 'pid', 'results': [...]}...]}.
+  Every session runs in its OWN process forked from this interpreter right after `import dadi` (no dadi call has been made,
+  so every module-level memo is empty), its calls strictly in list order; each result records 'pos' (its place in the
+  sequence), 'pid' and 'layout' so that the caller can check that the order it asked for is the order that ran.
 """
-import sys, json, warnings, logging
+import sys, os, json, warnings, logging
 warnings.filterwarnings('ignore')
 import numpy as np
 import dadi
@@ -37,6 +46,26 @@ def pack(fs):
             'extrap_x': (None if getattr(fs, 'extrap_x', None) is None else float(fs.extrap_x)),
             'is_spectrum': isinstance(fs, Spectrum)}
 
+def relayout(a, how):
+    """same values, different memory layout (always a fresh buffer: the JSON-built array is never handed to dadi twice)"""
+    if how in (None, 'C'):
+        return a
+    if how == 'F':
+        return np.asfortranarray(a)
+    if how == 'T':
+        return np.ascontiguousarray(a.T).T
+    if how == 'swap':
+        return np.ascontiguousarray(a.swapaxes(0, -1)).swapaxes(0, -1)
+    if how == 'strided':
+        big = np.full([2 * n for n in a.shape], np.nan)
+        view = big[tuple(slice(None, None, 2) for _ in a.shape)]
+        view[...] = a
+        return view
+    if how == 'neg':
+        rev = tuple(slice(None, None, -1) for _ in a.shape)
+        return np.ascontiguousarray(a[rev])[rev]
+    raise KeyError(how)
+
 def one(c):
     fn = c['fn']
     if fn == 'bbconv':
@@ -44,9 +73,11 @@ def one(c):
         via_float = c.get('n_float', True)          # the callers pass n/ploidy, a float
         nn = float(n) if via_float else n
         return {'data': [float(Numerics.BetaBinomConvolution(i, nn, c['a'], c['b'], ploidy=p)) for i in range(n * p + 1)]}
-    xxs = [np.array(x, dtype=float) for x in c['xxs']]
-    phi = np.array(c['phi'], dtype=float).reshape(c['shape'])
+    xxs = [relayout(np.array(x, dtype=float), c.get('grid_layout')) for x in c['xxs']]
+    phi = relayout(np.array(c['phi'], dtype=float).reshape(c['shape']), c.get('phi_layout'))
     phi0 = phi.copy(); xxs0 = [x.copy() for x in xxs]
+    lay = {'phi': [bool(phi.flags['C_CONTIGUOUS']), bool(phi.flags['F_CONTIGUOUS']), [int(t) for t in phi.strides]],
+           'grid': [[int(t) for t in x.strides] for x in xxs]}
     for pre in c.get('pre', []):
         if pre[0] == 'remove_pop':
             phi = PhiManip.remove_pop(phi, xxs[pre[1] - 1], pre[1])
@@ -82,19 +113,52 @@ def one(c):
             fs = fs.marginalize(post[1], mask_corners=c.get('mask_corners', True))
     r = pack(fs)
     r['warn'] = list(grab.msgs)
+    r['layout'] = lay
     # inputs must not be modified
     r['inputs_untouched'] = bool(np.array_equal(phi, phi0) and all(np.array_equal(a, b) for a, b in zip(xxs, xxs0)))
     return r
 
-def main():
-    calls = json.load(sys.stdin)
+def run_list(calls):
     out = []
-    for c in calls:
+    for pos, c in enumerate(calls):
         try:
-            out.append(one(c))
+            r = one(c)
         except (ValueError, NotImplementedError) as e:
-            out.append({'refused': type(e).__name__ + ': ' + str(e)[:160]})
+            r = {'refused': type(e).__name__ + ': ' + str(e)[:160]}
         except Exception as e:
-            out.append({'error': type(e).__name__ + ': ' + str(e)[:200]})
-    print(json.dumps(out))
+            r = {'error': type(e).__name__ + ': ' + str(e)[:200]}
+        r['pos'] = pos; r['pid'] = os.getpid()
+        out.append(r)
+    return out
+
+def run_session(sess):
+    """the calls of one session, in order, in a process of their own (forked before any dadi call was made)"""
+    rd, wr = os.pipe()
+    pid = os.fork()
+    if pid == 0:
+        code = 0
+        try:
+            os.close(rd)
+            txt = json.dumps(run_list(sess['calls']))
+            with os.fdopen(wr, 'w') as f:
+                f.write(txt)
+        except BaseException as e:
+            sys.stderr.write('session %s: %r\n' % (sess.get('id'), e)); code = 1
+        os._exit(code)
+    os.close(wr)
+    with os.fdopen(rd) as f:
+        txt = f.read()
+    _, status = os.waitpid(pid, 0)
+    if status != 0 or not txt:
+        return {'id': sess.get('id'), 'pid': pid, 'results': [{'error': 'session process died (status %d)' % status, 'pos': k, 'pid': pid}
+                                                                for k in range(len(sess['calls']))]}
+    return {'id': sess.get('id'), 'pid': pid, 'results': json.loads(txt)}
+
+def main():
+    payload = json.load(sys.stdin)
+    if isinstance(payload, dict) and 'sessions' in payload:
+        sys.stdout.flush()
+        print(json.dumps({'sessions': [run_session(s) for s in payload['sessions']], 'parent': os.getpid()}))
+        return
+    print(json.dumps(run_list(payload)))
 main()
